@@ -81,7 +81,8 @@ std::optional<ChunkRecord> ChunkStore::get_record(const ChunkId& id) {
     }
 
     if (std::chrono::steady_clock::now() >= it->second.expires_at) {
-        chunks_.erase(it);
+        // Leave the expired record for sweep_expired(): only the sweep wipes the persisted file and
+        // reports the expiry, so dropping the record here would lose both.
         return std::nullopt;
     }
 
